@@ -92,13 +92,15 @@ package gen
 //@   ensures [C09 pos] result != nil && typeis(result, ParseError, ptr)
 //@   ensures [C09 pos] as(result, ParseError).Line == p.line && as(result, ParseError).Column == off - p.noff
 
-//@ pred EqButOff(a, b) = a.Ph == b.Ph && a.Kinds == b.Kinds && a.Key == b.Key && a.Lit == b.Lit && a.K == b.K
+//@ pred EqButOffSL(a, b) = a.Ph == b.Ph && a.Kinds == b.Kinds && a.Key == b.Key && a.Lit == b.Lit && a.K == b.K
 //@     && a.Line == b.Line && a.LastNL == b.LastNL && a.Multi == b.Multi && a.ErrOff == b.ErrOff && a.Docs == b.Docs
-//@     && a.H == b.H && a.Bases == b.Bases
+//@     && a.H == b.H && a.Bases == b.Bases && a.RN == b.RN
+
+//@ pred EqButOff(a, b) = EqButOffSL(a, b) && a.SLen == b.SLen
 
 //@ pred EqButOffPh(a, b) = a.Kinds == b.Kinds && a.Key == b.Key && a.Lit == b.Lit && a.K == b.K
 //@     && a.Line == b.Line && a.LastNL == b.LastNL && a.Multi == b.Multi && a.ErrOff == b.ErrOff && a.Docs == b.Docs
-//@     && a.H == b.H && a.Bases == b.Bases
+//@     && a.H == b.H && a.Bases == b.Bases && a.SLen == b.SLen && a.RN == b.RN
 
 //@ pred TopIs(q, kind) = q.Kinds.Len() > 0 && q.Kinds.Top() == kind
 
@@ -183,7 +185,12 @@ package gen
 
 //@ pred PMaps(p) = (forall k: 0 <= k && k < len(p.maps) ==> p.maps[k] != nil)
 
-//@ pred PRel(p, q, n, base) = VMode(p, q) && PLevels(p, q) && PTop(p, q) && q.Off == n && q.Multi == !p.OnlyOne
+// Payload of the string being read on the slow path: p.tmp holds exactly the decoded bytes so far, p.rn the hex digits.
+
+//@ pred PStr(p, q) = ((q.Ph == spec.Str || q.Ph == spec.StrEsc || q.Ph == spec.StrU) ==> len(p.tmp) == q.SLen && 0 <= q.SLen)
+//@     && (q.Ph == spec.StrU ==> p.rn == q.RN && 0 <= q.RN && (q.K == 0 ==> q.RN == 0) && (q.K == 1 ==> q.RN < 16) && (q.K == 2 ==> q.RN < 256) && (q.K == 3 ==> q.RN < 4096))
+
+//@ pred PRel(p, q, n, base) = VMode(p, q) && PStr(p, q) && PLevels(p, q) && PTop(p, q) && q.Off == n && q.Multi == !p.OnlyOne
 //@     && p.line == q.Line && p.noff == q.LastNL - base && 1 <= q.Line && q.Line <= n + 1 && -1 <= q.LastNL && q.LastNL < n
 //@     && (q.Ph >= spec.NumNeg && q.Ph <= spec.NumExp ==> NumInv(p.num)) && 0 <= p.mi && p.mi <= len(p.maps) && PMaps(p)
 
@@ -241,8 +248,8 @@ package gen
 //@     invariant $k >= 0 ==> i == $k && b == $s[$k]
 //@     invariant $k == -1 ==> i == i0 && b == b0
 //@     invariant $k >= 0 ==> stringMap[b] == strOk
-//@     invariant [C01 C09 sim] EqButOff(spec.Run(qi, S, base+o1+$k+1), R1) && spec.Run(qi, S, base+o1+$k+1).Off == base+o1+$k+1
-//@     invariant [C01 C09 sim] $k >= 0 ==> EqButOff(spec.Run(qi, S, base+o1+$k), R1) && spec.Run(qi, S, base+o1+$k).Off == base+o1+$k
+//@     invariant [C01 C09 sim] EqButOffSL(spec.Run(qi, S, base+o1+$k+1), R1) && spec.Run(qi, S, base+o1+$k+1).Off == base+o1+$k+1 && spec.Run(qi, S, base+o1+$k+1).SLen == R1.SLen + $k + 1
+//@     invariant [C01 C09 sim] $k >= 0 ==> EqButOffSL(spec.Run(qi, S, base+o1+$k), R1) && spec.Run(qi, S, base+o1+$k).Off == base+o1+$k && spec.Run(qi, S, base+o1+$k).SLen == R1.SLen + $k
 //@     use spec.Run.unfold(qi, S, base+o1+$k+1)
 //@   loop 3
 //@     let o1 = off + 1
@@ -252,8 +259,8 @@ package gen
 //@     invariant $k >= 0 ==> i == $k && b == $s[$k]
 //@     invariant $k == -1 ==> i == i0 && b == b0
 //@     invariant $k >= 0 ==> stringMap[b] == strOk
-//@     invariant [C01 C09 sim] EqButOff(spec.Run(qi, S, base+o1+$k+1), R1) && spec.Run(qi, S, base+o1+$k+1).Off == base+o1+$k+1
-//@     invariant [C01 C09 sim] $k >= 0 ==> EqButOff(spec.Run(qi, S, base+o1+$k), R1) && spec.Run(qi, S, base+o1+$k).Off == base+o1+$k
+//@     invariant [C01 C09 sim] EqButOffSL(spec.Run(qi, S, base+o1+$k+1), R1) && spec.Run(qi, S, base+o1+$k+1).Off == base+o1+$k+1 && spec.Run(qi, S, base+o1+$k+1).SLen == R1.SLen + $k + 1
+//@     invariant [C01 C09 sim] $k >= 0 ==> EqButOffSL(spec.Run(qi, S, base+o1+$k), R1) && spec.Run(qi, S, base+o1+$k).Off == base+o1+$k && spec.Run(qi, S, base+o1+$k).SLen == R1.SLen + $k
 //@     use spec.Run.unfold(qi, S, base+o1+$k+1)
 //@   loop 4
 //@     invariant true
